@@ -10,6 +10,6 @@ for p in "$@"; do
     cp /tmp/mut/out/$p/$k/patch.diff /tmp/mut/out/$p/$k/demo.py /tmp/mut/out/$p/$k/meta.json $d/
     # other helper files the demo may need
     for f in /tmp/mut/out/$p/$k/*; do case "$f" in *.py|*.json|*.diff|*.txt|*.dat) cp -n "$f" $d/ ;; esac; done
-    sed -i "s#/tmp/mut/out/$p/stub#/verif/seeded/stubs/$p#g; s#os.path.join(HERE, '..', 'stub')#'/verif/seeded/stubs/$p'#g; XX#'/verif/seeded/stubs/$p'#g; s#os.path.join(os.path.dirname(HERE), 'stub')#'/verif/seeded/stubs/$p'#g; s#/tmp/mut/out/$p/$k#$d#g" $d/*.py
+    sed -i "s#/tmp/mut/out/$p/stub#/verif/seeded/stubs/$p#g; s#os.path.join(HERE, '..', 'stub')#'/verif/seeded/stubs/$p'#g; s#os.path.join(os.path.dirname(HERE), 'stub')#'/verif/seeded/stubs/$p'#g; s#/tmp/mut/out/$p/$k#$d#g" $d/*.py
   done
 done
